@@ -70,3 +70,84 @@ func TestExpiryBurst(t *testing.T) {
 		fmt.Fprintf(mon, "MON 0 ok subs=%d\n", rounds)
 	}
 }
+
+// TestIdleLifetime (C11, "expanded workers exit after being idle for ExpandedLifetime, and the full expansion capacity is available
+// again afterwards"), deterministic in virtual time: an expanded worker runs a task that lasts several lifetimes, then stays alive for
+// exactly one more lifetime of idleness, then is gone; afterwards a new burst expands the pool to its cap again.
+func TestIdleLifetime(t *testing.T) {
+	rounds, _ := strconv.Atoi(os.Getenv("POOL_RUNS"))
+	monf, err := os.Create(os.Getenv("POOL_MON"))
+	if err != nil {
+		t.Fatal(err)
+	}
+	mon := bufio.NewWriter(monf)
+	defer func() { mon.Flush(); monf.Close() }()
+	for r := 0; r < rounds; r++ {
+		nw, limit := 1+r%2, 1+(r/2)%2
+		life := time.Duration(20+10*(r%5)) * time.Millisecond
+		long := time.Duration(1+r%4) * life // how long the expanded workers' first tasks run (in lifetimes)
+		fmt.Fprintf(mon, "RUN %d idle-lifetime probe: NumberWorker=%d ExpandableLimit=%d ExpandedLifetime=%v task duration %v\n", r, nw, limit, life, long)
+		msg := ""
+		synctest.Test(t, func(t *testing.T) {
+			p := workerpool.NewPool(context.Background(), workerpool.Option{NumberWorker: nw, ExpandableLimit: int32(limit), ExpandedLifetime: life})
+			var running int32
+			hold := make(chan struct{})  // fixed workers' tasks
+			gate := make(chan struct{})  // expanded workers' first tasks
+			gate2 := make(chan struct{}) // second burst
+			mk := func(g chan struct{}) func(context.Context) (interface{}, error) {
+				return func(context.Context) (interface{}, error) {
+					atomic.AddInt32(&running, 1)
+					<-g
+					atomic.AddInt32(&running, -1)
+					return nil, nil
+				}
+			}
+			for i := 0; i < nw; i++ {
+				p.Execute(mk(hold))
+				synctest.Wait() // a fixed worker has taken it (otherwise the next submission would find the slot taken and expand)
+			}
+			// limit further tasks: each finds the queue full after the first and expands; all run at once
+			for i := 0; i < limit; i++ {
+				go p.Execute(mk(gate))
+				synctest.Wait()
+			}
+			go p.Execute(mk(gate)) // one more keeps the queue slot occupied until a worker is free
+			synctest.Wait()
+			if n := int(atomic.LoadInt32(&running)); n != nw+limit {
+				msg = fmt.Sprintf("C11 idle-lifetime probe: %d tasks run at once with %d more pending, expected NumberWorker %d + ExpandableLimit %d", n, 1, nw, limit)
+			}
+			time.Sleep(long) // the expanded workers are busy (not idle) all this time
+			close(gate)      // they finish, take the queued task, finish it too, and are idle from now on
+			synctest.Wait()
+			if w := countWorkers(); w != nw+limit && msg == "" {
+				msg = fmt.Sprintf("C11 idle-lifetime probe: %d pool goroutines right after the expanded workers became idle, expected %d (an expanded worker left without having been idle)", w, nw+limit)
+			}
+			time.Sleep(life - time.Millisecond)
+			synctest.Wait()
+			if w := countWorkers(); w != nw+limit && msg == "" {
+				msg = fmt.Sprintf("C11 idle-lifetime probe: %d pool goroutines after %v of idleness (ExpandedLifetime %v), expected %d: an expanded worker left early", w, life-time.Millisecond, life, nw+limit)
+			}
+			time.Sleep(2 * time.Millisecond)
+			synctest.Wait()
+			if w := countWorkers(); w != nw && msg == "" {
+				msg = fmt.Sprintf("C11 idle-lifetime probe: %d pool goroutines after %v of idleness (ExpandedLifetime %v), expected only the %d fixed workers", w, life+time.Millisecond, life, nw)
+			}
+			// the full expansion capacity is available again
+			for i := 0; i < limit+1; i++ {
+				go p.Execute(mk(gate2))
+				synctest.Wait()
+			}
+			if n := int(atomic.LoadInt32(&running)); n != nw+limit && msg == "" {
+				msg = fmt.Sprintf("C11 idle-lifetime probe: after the expanded workers expired a new burst runs %d tasks at once, expected %d again", n, nw+limit)
+			}
+			close(hold)
+			close(gate2)
+			p.Stop()
+		})
+		if msg != "" {
+			fmt.Fprintf(mon, "MON %d FAIL %s\n", r, msg)
+		} else {
+			fmt.Fprintf(mon, "MON %d ok subs=%d\n", r, nw+2*limit+2)
+		}
+	}
+}
